@@ -73,6 +73,14 @@ func AllPositions(src []byte, midRune bool) []hcl.Pos {
 	line, col := 1, 1
 	// incremental computation, equivalent to PosAt (checked by a self-test)
 	i := 0
+	if len(src) >= 3 && src[0] == 0xEF && src[1] == 0xBB && src[2] == 0xBF {
+		// a byte order mark occupies no column: the position behind it is still column 1
+		out = append(out, hcl.Pos{Line: 1, Column: 1, Byte: 0})
+		if midRune {
+			out = append(out, PosAt(src, 1), PosAt(src, 2))
+		}
+		i = 3
+	}
 	for i <= len(src) {
 		out = append(out, hcl.Pos{Line: line, Column: col, Byte: i})
 		if i == len(src) {
